@@ -569,6 +569,22 @@ def gen_deterministic(rng, lzo, jpeg, jpegrgb):
                   ("msg", crc_fb(sess), W, H, ["upd:0:0:%d:%d" % (W, H), "fin"]), None]
             out.append({"script": "\n".join(lines) + "\n", "expect": ex, "tags": ["det:tight-jpeg-reset", "det:tight-jpeg-pixels"],
                         "fmt": fmt.name, "sfmt": sf.name, "encs": ["tight"], "size": (W, H), "seg": [0], "nomodel": True})
+    # ---- VNC authentication (library only: DES is outside the model): challenge, response of the library's own
+    # d3des with the harness password, SecurityResult OK; then ServerInit and pixels as usual
+    for ver in (b"RFB 003.003\n", b"RFB 003.007\n", b"RFB 003.008\n"):
+        fmt = E.FMT_BY_NAME["rgb565le"]
+        W, H = 9, 5
+        chal = bytes((i * 37 + 11) & 0xFF for i in range(16))
+        sec = (bytes([2, 1, 2]) if ver >= b"RFB 003.007\n" else struct.pack(">I", 2)) + chal + struct.pack(">I", 0)
+        hsb = ver + sec + struct.pack(">HH", W, H) + sf.wire() + struct.pack(">I", 3) + b"det"
+        sess = E.Session(rng, fmt, W, H, lzo=lzo)
+        sess.z = []
+        r1 = sess.enc_rect("raw", 0, 0, W, H)
+        lines = ["client %s enc=raw cursor=1 fbmode=1" % " ".join(str(v) for v in fmt.tuple()), "seg 0", "init " + hexs(hsb),
+                 "msg " + hexs(E.fbu([r1])), "end"]
+        ex = [None, None, ("init", W, H, b"det"), ("msg", crc_fb(sess), W, H, ["upd:0:0:%d:%d" % (W, H), "fin"]), None]
+        out.append({"script": "\n".join(lines) + "\n", "expect": ex, "tags": ["det:vncauth", "raw", "vncauth"], "fmt": fmt.name,
+                    "sfmt": sf.name, "encs": ["raw"], "size": (W, H), "seg": [0], "nomodel": True})
     # ---- ExtendedDesktopSize: every screen count 1..4, new size and unchanged size, followed by pixels
     for name in ("bgr233", "rgb565le", "rgb888le"):
         fmt = E.FMT_BY_NAME[name]
